@@ -6,7 +6,7 @@ cd "$(dirname "$0")/.."
 V=$PWD
 O=/dev/shm/verif-old-$$
 git worktree add -q --detach $O $h || exit 2
-for d in seeded/*-$r/; do
+for d in seeded/*-$r*/; do
   n=$(basename $d); p=${n%%-*}
   S=/dev/shm/blsim-oldh-$$-$n; mkdir -p $S/repo
   (cd /repo && git archive HEAD) | tar -x -C $S/repo
